@@ -7,7 +7,8 @@ wit = KaniUnit("c05_wit", CORE, modules=[dict(file=CORE + "/src/algorithm/search
 wit.native_witnesses = ["c05_wit_no_path_exactly_when_unreachable", "c02_wit_tree_labels_are_least_costs"]
 al = VerusUnit("al_astar", "al_astar", rlimit=60, paired_kani=(wit, []))
 dp = VerusUnit("c01_dispatch", "c01_dispatch", rlimit=60, paired_kani=(wit, []))
-UNITS = [al, dp, wit]
+eo = VerusUnit("c01_edge_oriented", "c01_edge_oriented", rlimit=60, clauses=r"callers\.2", paired_kani=(wit, []))
+UNITS = [al, dp, eo, wit]
 EXPLANATION = ("run_a_star + advance_search under contract: 'no path' is produced only by an exhausted queue with a target, and then (invariant EXP) the "
                "labelled set is closed under every edge the frontier model permitted and does not contain the target; a returned tree contains the target; "
                "without a target the search returns only at queue exhaustion with the closed labelled set; "
